@@ -361,8 +361,21 @@ def r7_3(prog, rep, pp):
             if name is None:
                 continue
             allowed = KNOWN_WRITERS.get(name, set())
-            obl(rep, f, node, "R7.3", q in allowed, f"`{short(node, 60)}` writes long-lived `{name}`",
-                "registered writer", f"{q} mutates the long-lived object `{name}` ({kind}): state leaks between designs / calls")
+            why_ok = "registered writer"
+            okw = q in allowed
+            if not okw and f.cls is None and f.parent is None and name.rsplit(".", 1)[0] == f.module.name:
+                # a registration helper of the registry's own module, called only by that module's top-level statements (at
+                # import): the module's own update, written as a function
+                sites = [(m_, c_) for m_ in prog.modules.values() for c_ in ast.walk(m_.tree)
+                         if isinstance(c_, ast.Call) and (dotted(c_.func) or "").split(".")[-1] == f.name]
+                top = [c_ for st_ in f.module.tree.body if isinstance(st_, ast.Expr) for c_ in [st_.value] if isinstance(c_, ast.Call)
+                       and isinstance(c_.func, ast.Name) and c_.func.id == f.name]
+                refs = [n_ for m_ in prog.modules.values() for n_ in ast.walk(m_.tree)
+                        if (isinstance(n_, ast.Name) and n_.id == f.name or isinstance(n_, ast.Attribute) and n_.attr == f.name or isinstance(n_, ast.alias) and n_.name == f.name)]
+                if top and len(sites) == len(top) and all(m_ is f.module for m_, _c in sites) and len(refs) == len(top):
+                    okw, why_ok = True, f"called only by {len(top)} top-level statement(s) of {f.module.name} (the module's own registration)"
+            obl(rep, f, node, "R7.3", okw, f"`{short(node, 60)}` writes long-lived `{name}`",
+                why_ok, f"{q} mutates the long-lived object `{name}` ({kind}): state leaks between designs / calls")
     # module-level statements that write registries (the module's own update)
     for m in prog.modules.values():
         for node in m.tree.body:
